@@ -918,6 +918,7 @@ class Check:
             elif not val and not can_be_empty:
                 raise ValueError('expected %r argument to contain at least one value,'
                                  ' not: %r' % (name, val))
+            val = tuple(val)  # (isinstance() needs a tuple, a one-shot iterable would be spent)
             for v in val:
                 if not func(v):
                     raise ValueError('expected %r argument to be %s, not: %r'
